@@ -426,6 +426,7 @@ def c01_program(args):
         ("no-ASLR+big-env+heap-ballast", ["setarch", "-R", plain] + base + ["--prealloc", str(100 + (c * 37) % 5000)], dict(penv, VERIF_BALLAST=big)),
         ("ASLR+heap-ballast", [plain] + base + ["--prealloc", str(1 + (c * 101) % 9000)], penv),
         ("after-other-simulations", [plain] + base + ["--warmup", str(1 + c % 3)], penv),
+        ("after-simulations-left-by-an-exception", [plain] + base + ["--warmup", str(1 + c % 2), "--warmthrow", str(5 + c % 40)], penv),
         ("wall-clock-skewed", [plain] + base, dict(penv, LD_PRELOAD=shim, VERIF_SKEW_SEED=str(seed + c), VERIF_SKEW_REPORT=os.path.join(workdir, "skew-%d" % c))),
         ("no-step-hook(poll)", [plain] + base + ["--hook", "0"], penv),
         ("asan-allocator", [asan] + base, aenv),
